@@ -29,6 +29,12 @@ void register_b() {
     register_type<std::chrono::seconds>("chrono::seconds", [] { std::vector<std::chrono::seconds> v; for (long long c : {0LL, -1LL, 1LL, 1600000000LL, 4294967295LL, 4294967296LL, 17179869183LL, 17179869184LL, 253402300799LL, -62135596800LL, 9223372036LL, 9223372037LL, -9223372037LL}) v.push_back(std::chrono::seconds(c)); return v; });
     register_type<std::chrono::milliseconds>("chrono::milliseconds", [] { std::vector<std::chrono::milliseconds> v; for (long long c : {0LL, 1LL, -1LL, -1500LL, 999LL, 1000LL, 1600000000123LL, 4294967295999LL, 4294967296000LL, 17179869183999LL, 17179869184000LL, 9223372036854LL, 9223372036855LL, -9223372036855LL, 253402300799999LL, -62135596800000LL}) v.push_back(std::chrono::milliseconds(c)); return v; });
     register_type<std::chrono::nanoseconds>("chrono::nanoseconds", [] { std::vector<std::chrono::nanoseconds> v; for (long long c : {0LL, 1LL, -1LL, 999999999LL, 1000000000LL, -1500000000LL, 1600000000123456789LL, 4294967295999999999LL, 4294967296000000000LL, 9223372036000000000LL, -9223372036000000000LL}) v.push_back(std::chrono::nanoseconds(c)); return v; });
+    // tagged scalars inside containers that are decoded through the generic (cursor to basic_json) fallback
+    register_type<std::tuple<std::chrono::seconds, int, std::chrono::milliseconds>>("tuple<seconds,int,milliseconds>", [] { return std::vector<std::tuple<std::chrono::seconds, int, std::chrono::milliseconds>>{{std::chrono::seconds(5), 1, std::chrono::milliseconds(1500)}, {std::chrono::seconds(-7), 0, std::chrono::milliseconds(-1)}}; });
+    register_type<std::vector<std::chrono::seconds>>("vector<seconds>", [] { return std::vector<std::vector<std::chrono::seconds>>{{std::chrono::seconds(1), std::chrono::seconds(-2), std::chrono::seconds(1600000000)}, {}}; });
+    register_type<std::optional<std::vector<std::chrono::milliseconds>>>("optional<vector<milliseconds>>", [] { return std::vector<std::optional<std::vector<std::chrono::milliseconds>>>{std::vector<std::chrono::milliseconds>{std::chrono::milliseconds(1), std::chrono::milliseconds(-1500)}, std::nullopt}; });
+    register_type<std::map<std::string, std::tuple<std::chrono::seconds, std::string>>>("map<string,tuple<seconds,string>>", [] { return std::vector<std::map<std::string, std::tuple<std::chrono::seconds, std::string>>>{{{"a", {std::chrono::seconds(3), "x"}}, {"b", {std::chrono::seconds(-3), ""}}}}; }, true);
+    register_type<std::map<std::string, std::optional<std::vector<std::chrono::seconds>>>>("map<string,optional<vector<seconds>>>", [] { return std::vector<std::map<std::string, std::optional<std::vector<std::chrono::seconds>>>>{{{"a", std::vector<std::chrono::seconds>{std::chrono::seconds(2), std::chrono::seconds(9)}}, {"b", std::nullopt}}}; }, true);
     register_type<std::bitset<8>>("bitset<8>", [] { return std::vector<std::bitset<8>>{std::bitset<8>(0), std::bitset<8>(1), std::bitset<8>(0x80), std::bitset<8>(0xff), std::bitset<8>(0x5a)}; });
     register_type<std::bitset<70>>("bitset<70>", [] { std::bitset<70> a, b; b.set(0); b.set(69); b.set(33); return std::vector<std::bitset<70>>{a, b, ~a}; });
     register_type<ns17::colour>("enum colour", [] { return std::vector<ns17::colour>{ns17::colour::red, ns17::colour::green, ns17::colour::blue}; });
